@@ -325,7 +325,13 @@ func (b *Block) Value() (interface{}, error) {
 		if err != nil {
 			return nil, err
 		}
+		if len(blockData) < 4 {
+			return nil, errors.New("cram: truncated file header block")
+		}
 		end := binary.LittleEndian.Uint32(blockData[:4])
+		if uint64(end) > uint64(len(blockData)-4) {
+			return nil, errors.New("cram: invalid file header text length")
+		}
 		err = h.UnmarshalText(blockData[4 : 4+end])
 		if err != nil {
 			return nil, err
